@@ -23,7 +23,7 @@ std::vector<Node> nodes(1);
 std::unordered_map<uintptr_t,uint64_t> shadow;   // address of a double -> node id
 struct Cmp{ int pred; uint64_t a,b; long res; };
 std::vector<Cmp> pc;
-struct Obl{ int kind; uint64_t a,b; double va,vb,scale; std::string label; };
+struct Obl{ int kind; uint64_t a,b; double va,vb,scale; std::string label; long aux; };
 std::vector<Obl> obls;
 struct Chk{ int cond; std::string label; };
 std::vector<Chk> checks;
@@ -114,10 +114,11 @@ double fpsym_symbolic(double c,int idx,double lo,double hi){ Guard g; load_overr
   auto it=overrides.find(idx); if(it!=overrides.end()) c=it->second;
   nodes.push_back({1,(uint64_t)idx,0,c}); uint64_t id=nodes.size()-1; symidx[idx]=syms.size(); syms.push_back({idx,lo,hi,c,id}); tret[0]=id; tret[1]=0; return c; }
 static uint64_t A(int i){ return tvalid? targs[i]:0; }
-void fpsym_eq(double a,double b,double scale,const char*label){ Guard g; obls.push_back({0,A(0),A(1),a,b,scale,label}); tvalid=0; }
-void fpsym_le(double a,double b,double scale,const char*label){ Guard g; obls.push_back({1,A(0),A(1),a,b,scale,label}); tvalid=0; }
-void fpsym_ident(double a,double b,const char*label){ Guard g; obls.push_back({2,A(0),A(1),a,b,0,label}); tvalid=0; }
-void fpsym_nonconst(double v,const char*label){ Guard g; obls.push_back({3,A(0),0,v,0,0,label}); tvalid=0; }
+void fpsym_eq(double a,double b,double scale,const char*label){ Guard g; obls.push_back({0,A(0),A(1),a,b,scale,label,0}); tvalid=0; }
+void fpsym_le(double a,double b,double scale,const char*label){ Guard g; obls.push_back({1,A(0),A(1),a,b,scale,label,0}); tvalid=0; }
+void fpsym_ident(double a,double b,const char*label){ Guard g; obls.push_back({2,A(0),A(1),a,b,0,label,0}); tvalid=0; }
+void fpsym_nonconst(double v,const char*label){ Guard g; obls.push_back({3,A(0),0,v,0,0,label,0}); tvalid=0; }
+void fpsym_deriv(double jac,double val,double scale,int symid,const char*label){ Guard g; obls.push_back({4,A(0),A(1),jac,val,scale,label,(long)symid}); tvalid=0; }
 void fpsym_check(int cond,const char*label){ Guard g; checks.push_back({cond,label}); tvalid=0; }
 void fpsym_output(double v,const char*tag){ Guard g; outs.push_back({tag,A(0),v}); tvalid=0; }
 void fpsym_note(const char*key,long v){ Guard g; notes.push_back({key,v}); tvalid=0; }
@@ -137,7 +138,7 @@ void dump(const char*status){ if(dumped) return; dumped=true; const char*fn=gete
   for(size_t i=1;i<nodes.size();i++) if(mark[i]){ fprintf(f,"%s[%zu,%d,%lu,%lu,\"%a\"]",first?"":",",i,nodes[i].op,nodes[i].a,nodes[i].b,nodes[i].c); first=false; }
   fprintf(f,"],\n\"syms\":["); for(size_t i=0;i<syms.size();i++) fprintf(f,"%s[%d,\"%a\",\"%a\",\"%a\",%lu]",i?",":"",syms[i].id,syms[i].lo,syms[i].hi,syms[i].v,syms[i].node);
   fprintf(f,"],\n\"pc\":["); for(size_t i=0;i<pc.size();i++) fprintf(f,"%s[%d,%lu,%lu,%ld]",i?",":"",pc[i].pred,pc[i].a,pc[i].b,pc[i].res);
-  fprintf(f,"],\n\"obl\":["); for(size_t i=0;i<obls.size();i++) fprintf(f,"%s[%d,%lu,%lu,\"%a\",\"%a\",\"%a\",\"%s\"]",i?",":"",obls[i].kind,obls[i].a,obls[i].b,obls[i].va,obls[i].vb,obls[i].scale,esc(obls[i].label).c_str());
+  fprintf(f,"],\n\"obl\":["); for(size_t i=0;i<obls.size();i++) fprintf(f,"%s[%d,%lu,%lu,\"%a\",\"%a\",\"%a\",\"%s\",%ld]",i?",":"",obls[i].kind,obls[i].a,obls[i].b,obls[i].va,obls[i].vb,obls[i].scale,esc(obls[i].label).c_str(),obls[i].aux);
   fprintf(f,"],\n\"checks\":["); for(size_t i=0;i<checks.size();i++) fprintf(f,"%s[%d,\"%s\"]",i?",":"",checks[i].cond,esc(checks[i].label).c_str());
   fprintf(f,"],\n\"outs\":["); for(size_t i=0;i<outs.size();i++) fprintf(f,"%s[\"%s\",%lu,\"%a\"]",i?",":"",esc(outs[i].tag).c_str(),outs[i].id,outs[i].v);
   fprintf(f,"],\n\"notes\":["); for(size_t i=0;i<notes.size();i++) fprintf(f,"%s[\"%s\",%ld]",i?",":"",esc(notes[i].first).c_str(),notes[i].second);
